@@ -5,6 +5,7 @@
 //  bcap <cap> <tt> <hexelem,hexelem,...>      rtosc_bundle into an exact <cap>-byte block (C02)
 //  bun  <tree>                                nested bundle built bottom-up + all readers (C08)
 //  pm   <hexmsg>                              rtosc_bundle_p on a plain message (C08)
+//  rt   <hexaddr> <hextags> <args>             RtData::reply / broadcast va-forms (8192-byte stack buffer) (C02)
 //  raw  <hexbytes>                            rtosc_message_length / rtosc_valid_message_p on
 //                                             an exact heap copy, accessors if valid (C07)
 //  <args>  = '-' | payload{;payload}   payload = 4:<dec> | 8:<dec> | s:<hex> | b:<len>:<hex|NULL>
@@ -12,6 +13,7 @@
 #include "hcommon.h"
 #include <rtosc/rtosc.h>
 #include <rtosc/arg-val.h>
+#include <rtosc/ports.h>
 #include <cstdarg>
 #include <csignal>
 #include <unistd.h>
@@ -334,6 +336,41 @@ static void do_pm(const std::vector<std::string> &f)
     printf("p=%d\n", rtosc_bundle_p((const char*)B.p));
 }
 
+// ---- fixed-capacity callers: RtData::reply / RtData::broadcast (8192-byte stack buffer) ----
+struct CapData : rtosc::RtData {
+    std::string got;
+    void reply(const char *msg) override
+    {
+        if(!msg[0]) { got += "EMPTY"; return; }
+        size_t n = rtosc_message_length(msg, 8192);
+        got += n ? hex(msg, n) : std::string("NOLEN");
+    }
+    void broadcast(const char *msg) override { reply(msg); }
+    using rtosc::RtData::reply;
+    using rtosc::RtData::broadcast;
+};
+
+//  rt <hexaddr> <hextags> <args>   tags in {s, ss, b, is, sb}
+static void do_rt(const std::vector<std::string> &f)
+{
+    auto ab = unhex(f[1]), tb = unhex(f[2]);
+    std::string tags(tb.begin(), tb.end());
+    auto ps = parse_args(f[3]);
+    ArgPack pk; fill_args(pk, tags, ps);
+    std::vector<uint8_t> az(ab); az.push_back(0);
+    ExactBuf A(az);
+    const char *a = (const char*)A.p;
+    CapData r, b;
+    const rtosc_arg_t *v = pk.a.data();
+    if(tags == "s")       { r.reply(a, "s", v[0].s);                      b.broadcast(a, "s", v[0].s); }
+    else if(tags == "ss") { r.reply(a, "ss", v[0].s, v[1].s);             b.broadcast(a, "ss", v[0].s, v[1].s); }
+    else if(tags == "b")  { r.reply(a, "b", v[0].b.len, v[0].b.data);     b.broadcast(a, "b", v[0].b.len, v[0].b.data); }
+    else if(tags == "is") { r.reply(a, "is", v[0].i, v[1].s);             b.broadcast(a, "is", v[0].i, v[1].s); }
+    else if(tags == "sb") { r.reply(a, "sb", v[0].s, v[1].b.len, v[1].b.data); b.broadcast(a, "sb", v[0].s, v[1].b.len, v[1].b.data); }
+    else { puts("BADCASE"); return; }
+    printf("rp=%s bc=%s\n", r.got.c_str(), b.got.c_str());
+}
+
 static void on_alarm(int) { const char m[] = "HANG\n"; (void)!write(1, m, 5); _exit(3); }
 
 static void do_raw(const std::vector<std::string> &f)
@@ -366,6 +403,7 @@ int main()
         else if(f[0] == "bun" && f.size() >= 2) do_bun(f);
         else if(f[0] == "pm" && f.size() >= 2) do_pm(f);
         else if(f[0] == "raw" && f.size() >= 2) do_raw(f);
+        else if(f[0] == "rt" && f.size() >= 4) do_rt(f);
         else puts("BADCASE");
         fflush(stdout);
     }
